@@ -170,6 +170,9 @@ type FS struct {
 	nextCall     int64
 	overlaps     []Overlap
 	nameViol     []string
+	// NoModeOnce: that many GetAttr calls from now on succeed without
+	// reporting Mode as valid (guarded by mu).
+	NoModeOnce int
 	notes        []string
 	gates        []*Gate
 	faults       []*Fault
@@ -684,6 +687,14 @@ func (fs *FS) Overlaps() []Overlap {
 	return o
 }
 
+// SetNoMode makes the next n successful GetAttr calls leave Mode out of the
+// mask they report.
+func (fs *FS) SetNoMode(n int) {
+	fs.mu.Lock()
+	fs.NoModeOnce = n
+	fs.mu.Unlock()
+}
+
 // NameViolations returns (and clears) what the name monitor flagged.
 func (fs *FS) NameViolations() []string {
 	fs.evmu.Lock()
@@ -939,6 +950,12 @@ func (h *H) GetAttr(req p9.AttrMask) (q p9.QID, m p9.AttrMask, a p9.Attr, err er
 	n, err := h.cur()
 	if err != nil {
 		return p9.QID{}, p9.AttrMask{}, p9.Attr{}, err
+	}
+	if h.fs.NoModeOnce > 0 {
+		// a backend may report fewer fields than it was asked for: here,
+		// once or a few times, everything but the mode
+		h.fs.NoModeOnce--
+		req.Mode = false
 	}
 	return n.qid(), req, n.attr(), nil
 }
